@@ -180,6 +180,7 @@ def run_job(job, workdir):
     reach_failed = False
     unwinding_failed = False
     failed = []
+    unknown = []
     for r in results:
         desc = r.get("description", "")
         ob = {"id": r.get("property", ""), "desc": desc, "status": r.get("status", "")}
@@ -198,11 +199,16 @@ def run_job(job, workdir):
                 ob["cex"] = _cex(r.get("trace", []), job.entry)
                 failed.append(ob)
         elif ob["status"] != "SUCCESS":
-            res["reason"] = f"obligation {ob['id']} status {ob['status']}"
+            unknown.append(f"obligation {ob['id']} status {ob['status']}")
         res["obligations"].append(ob)
     res["wall_s"] = round(time.time() - t0, 2)
-    if res["reason"]:
+    # obligations left UNKNOWN by cbmc (paths cut behind an earlier failed check) make the job
+    # undecided only when nothing was decided false; a decided failure is reported as such
+    if unknown and not failed:
+        res["reason"] = unknown[0]
         return res
+    if unknown:
+        res["unknown_obligations"] = len(unknown)
     if unwinding_failed:
         res["reason"] = "unwinding assertion failed (bound too small)"
         return res
